@@ -125,7 +125,13 @@ def decoded_source(field):
         return t[2][0]
     return None
 
-_EXACT = re.compile(r"^<(?:Vec<u8>|&\[u8\]|&mut \[u8\]|Box<\[u8\]>) as TryInto<\[u8; (\d+)\]>>::try_into$|^<\[u8; (\d+)\] as TryFrom<(?:Vec<u8>|&\[u8\]|&mut \[u8\]|Box<\[u8\]>)>>::try_from$")
+_BUF = r"(?:Vec<u8>|&\[u8\]|&mut \[u8\]|Box<\[u8\]>)"
+_EXACT = re.compile(r"^<%s as TryInto<\[u8; (\d+)\]>>::try_into$|^<\[u8; (\d+)\] as TryFrom<%s>>::try_from$"
+                    r"|^(?:alloc::vec|core::array|alloc::boxed)::<impl TryFrom<%s> for \[u8; (\d+)\]>::try_from$" % (_BUF, _BUF, _BUF))
+def exact_len_conv_name(name):
+    """N if `name` is a std whole-buffer -> [u8; N] conversion (succeeds iff the buffer is exactly N bytes long)."""
+    m = _EXACT.match(name)
+    return int(next(g for g in m.groups() if g)) if m else None
 _VIEWS = ("Vec::<T, A>::as_slice", "<Vec<u8> as Deref>::deref", "<Vec<u8> as AsRef<[u8]>>::as_ref", "<Vec<u8> as Borrow<[u8]>>::borrow")
 def exact_len_conv(field):
     """field = ok(<whole-buffer -> [u8; N] std TryFrom>(X)) -> (X, N): these conversions succeed iff len(X) == N (a prefix
@@ -137,7 +143,7 @@ def exact_len_conv(field):
             x = t[2][0]
             while isinstance(x, tuple) and x and x[0] == "call" and x[1] in _VIEWS:
                 x = x[2][0]
-            return x, int(m.group(1) or m.group(2))
+            return x, int(next(g for g in m.groups() if g))
     return None
 
 def empty_bytes(t):
